@@ -216,6 +216,21 @@ def oracle(scn, outs):
             r, skip = check_layout(B, ed, parse_nodes(o), nr)
             if r:
                 return r
+            r = check_206(parse_nodes(o))
+            if r:
+                return r
+    return None
+
+def check_206(nodes):
+    """2 06 YYY: "YYY bits of data are described by the immediately following local descriptor" — whatever the
+    tables of the receiver know about that descriptor (numeric, code or flag table, characters)"""
+    prev = None
+    for nd in nodes:
+        d = nd["desc"]
+        if prev is not None and regs.F(d) == 0 and regs.X(d) != 31 and (regs.X(d) > 47 or 192 <= regs.Y(d) <= 255) \
+                and not (nd["flags"] & 4) and nd["type"] in (5, 6, 7) and nd["nbits"] != prev:
+            return "206: local descriptor %06d behind 2 06 %03d is given %d bits" % (d, prev, nd["nbits"])
+        prev = regs.Y(d) if (regs.F(d) == 2 and regs.X(d) == 6 and not (nd["flags"] & 4)) else None
     return None
 
 def canon(line, out, side):
